@@ -78,55 +78,7 @@ def g1(cx):
                      detail="raw copy taken only when the type holds no references",
                      bad_detail="whole-object byte copy without a dominating `not ..._has_refs` test: relative references are duplicated verbatim and point to unrelated bytes in the copy")
     cx.need(n_guarded >= 3, f"only {n_guarded} guarded whole-object copy sites found (Struct._to_buffer, Struct._update, Array._to_buffer expected)")
-    # G1b: definitions of _has_refs
-    rc = m.cls("ref::Ref")
-    v = [s for s in rc.body if isinstance(s, ast.Assign) and norm(s.targets[0]) == "_has_refs"]
-    cx.check(len(v) == 1 and norm(v[0].value) == "True", v[0] if v else rc, construct="Ref._has_refs = True", detail="a reference has references", bad_detail="Ref._has_refs is not True", sub="G1b")
-    mu = m.func("ref::MetaUnionRef.__new__")
-    v = [s for s in own_nodes(mu) if isinstance(s, ast.Assign) and norm(s.targets[0]) in ("data['_has_refs']",)]
-    cx.check(len(v) == 1 and norm(v[0].value) == "True" and not [c for c in Flow(mu).conds_at(v[0]) if c.kind == "if"], v[0] if v else mu,
-             construct="MetaUnionRef: data['_has_refs'] = True", detail="a union reference has references", bad_detail="UnionRef classes do not unconditionally get _has_refs = True", sub="G1b")
-    # struct: OR over all fields
-    ms = m.func("struct::MetaStruct.__new__")
-    fl = Flow(ms)
-    d = Defs(ms)
-    st = [s for s in own_nodes(ms) if isinstance(s, ast.Assign) and norm(s.targets[0]) == "data['_has_refs']"]
-    cx.need(len(st) == 1, "MetaStruct.__new__: data['_has_refs'] assignment not found")
-    src_name = norm(st[0].value)
-    defs = d.defs_of(src_name)
-    vals = sorted(norm(v) for v, _ in defs if v is not None)
-    ok = vals == ["False", "True"]
-    loop_ok = False
-    for v, s in defs:
-        if v is not None and norm(v) == "True":
-            loops = fl.loops_at(s)
-            if loops and norm(loops[-1].iter) in ("data['_fields']", "fields"):
-                lp = loops[-1]
-                tv = norm(lp.target)
-                conds = [c for c in fl.conds_at(s) if c.kind == "if"]
-                txt = " ".join(c.text() for c in conds)
-                # the test must read _has_refs of the field's type and be positive
-                ftype_names = {tv + ".ftype"} | {n for n, ds in d.assigns.items() if any(vv is not None and norm(vv) == tv + ".ftype" for vv, _ in ds)}
-                reads = any(isinstance(c.test, ast.Attribute) and c.test.attr == "_has_refs" and c.pol and norm(c.test.value) in ftype_names for c in conds)
-                # no filter skipping fields (continue/break before the test)
-                early = [x for b in lp.body for x in ast.walk(b) if isinstance(x, ast.Continue)]
-                loop_ok = reads and not early
-    cx.check(ok and loop_ok, st[0], construct="MetaStruct: _has_refs = any(field.ftype._has_refs for all fields)", detail="a struct has references iff one of its fields' types has",
-             bad_detail="struct _has_refs is not the OR of ftype._has_refs over every field", sub="G1b")
-    ma = m.func("array::MetaArray.__new__")
-    fl = Flow(ma)
-    sts = [s for s in own_nodes(ma) if isinstance(s, ast.Assign) and norm(s.targets[0]) == "data['_has_refs']"]
-    cx.need(len(sts) == 2, "MetaArray.__new__: expected the two assignments of data['_has_refs']")
-    good = 0
-    for s in sts:
-        conds = [c for c in fl.conds_at(s) if c.kind == "if" and isinstance(c.test, ast.Attribute) and c.test.attr == "_has_refs"]
-        val = norm(s.value)
-        allc = [c for c in fl.conds_at(s) if c.kind == "if"]
-        if val == "True" and conds and conds[0].pol and "_itemtype" in norm(conds[0].test.value):
-            good += 1
-        elif val == "False" and any((not c.pol) and "_has_refs" in norm(c.test) and "_itemtype" in norm(c.test) for c in allc):
-            good += 1
-    cx.check(good == 2, sts[0], construct="MetaArray: _has_refs = itemtype._has_refs", detail="an array has references iff its item type has", bad_detail="array _has_refs does not follow the item type", sub="G1b")
+    # G1b (propagation of _has_refs through the metaclasses) is decided by evaluation: rule G1b in rules/layout.py
 
 
 # ------------------------------------------------------------------------------------------ G2
@@ -202,7 +154,15 @@ def g2(cx):
                      bad_detail=why + ": a larger value overwrites the bytes that follow")
             if found is not None and len(w.args) + len(w.keywords) >= 4:
                 info_arg = w.args[3] if len(w.args) >= 4 else w.keywords[0].value
-                cx.check(norm(info_arg) == found[1][: -len(".size")], w, construct=f"info={norm(info_arg)}", detail="the checked plan is the plan the writer uses",
+                ia = info_arg
+                for _ in range(3):  # follow `info = plan` aliases
+                    if isinstance(ia, ast.Name) and norm(ia) != found[1][: -len(".size")]:
+                        dv = [v for v, _s in d.defs_of(ia.id) if v is not None and not (isinstance(v, ast.Constant) and v.value is None)]
+                        if len(dv) == 1 and isinstance(dv[0], ast.Name):
+                            ia = dv[0]
+                            continue
+                    break
+                cx.check(norm(ia) == found[1][: -len(".size")], w, construct=f"info={norm(info_arg)}", detail="the checked plan is the plan the writer uses",
                          bad_detail="the writer is not given the plan that was checked", sub="plan")
     # Struct._update: byte copy only for equal sizes
     fn = m.func("struct::Struct._update")
